@@ -31,7 +31,7 @@ m = json.load(open(d + "/meta.json"))
 m["property"] = p
 m["kind"] = "breaking" if v.startswith("b") else "preserving"
 m["round"] = int(rnd)
-line = [l for l in open("/tmp/mut/v$R/%s.txt" % p) if "/%s/%s " % (p, v) in l]
+line = [l for l in open("/tmp/mut/v%s/%s.txt" % (rnd, p)) if "/%s/%s " % (p, v) in l]
 m["confirmed_by_me"] = ("tools/verify_seed2.sh in a scratch worktree: " + " ".join(line[0].split()[1:])) if line else ""
 json.dump(m, open(d + "/meta.json", "w"), indent=1)
 PY
